@@ -71,7 +71,9 @@ def _case(draw, gen: int):
     if silent_at is not None:
         beh[con.STEPS[silent_at]][0]["silent"] = True
     lat = draw(st.sampled_from([0.0, 0.0, 0.0, 1.0, 4.5, 5.5, "never"]))
-    return {"inst": inst, "state": state, "behaviour": beh, "connect": lat}
+    # refused attempts before the accepted one (the client retries every 2 s)
+    refusals = draw(st.sampled_from([0, 0, 0, 1, 2, 3]))
+    return {"inst": inst, "state": state, "behaviour": beh, "connect": lat, "refusals": refusals}
 
 
 def check_case(case, stats: Stats | None = None):
@@ -81,7 +83,7 @@ def check_case(case, stats: Stats | None = None):
     def bad(key, what):
         raise Violation(f"C09:{key}", what, case)
 
-    script = [("refuse", 0.0)] * 8 if lat == "never" else [("accept", lat)]
+    script = [("refuse", 0.0)] * 8 if lat == "never" else [("refuse", 0.0)] * case.get("refusals", 0) + [("accept", lat)]
     rig = ApiRig(inst, state, beh, connect_script=script)
     if lat == "never":
         rig.net.default = ("refuse", 0.0)
@@ -115,6 +117,8 @@ def check_case(case, stats: Stats | None = None):
         if errs:
             bad("task-died", f"a client task died: {errs[0]}")
         classes = [f"gen{gen}", f"form:{inst['form']}", f"acs:{len(inst['acs'])}"]
+        if case.get("refusals") and lat != "never":
+            classes.append("refused-first")
         if inst["zero_zones"]:
             classes.append("zero-zones-at5")
         if gen == 4 and not inst["zones"]:
@@ -124,8 +128,10 @@ def check_case(case, stats: Stats | None = None):
             classes.append("expect-false")
             if silent:
                 classes.append("silent-step:%d" % [i for i, k in enumerate(con.STEPS) if beh[k][0].get("silent")][0])
-            opened = any(e[1] == "open" and e[0] < 5.0 for e in rig.net.log)
-            if seq != (con.STEPS[:step + 1] if opened else []):
+            opened_before = any(e[1] == "open" and e[0] < 5.0 for e in rig.net.log)
+            opened_at_deadline = any(e[1] == "open" and e[0] == 5.0 for e in rig.net.log)
+            allowed = [con.STEPS[:step + 1]] if opened_before else ([con.STEPS[:i] for i in range(step + 2)] if opened_at_deadline else [[]])
+            if seq not in allowed:
                 bad("request-order", f"handshake stalled at step {step} yet the discovery requests seen are {seq}")
             if r[1] is not False:
                 bad("init-true-unanswered", f"console never completed the handshake yet init() returned {r[1]!r}")
@@ -179,7 +185,7 @@ def check_case(case, stats: Stats | None = None):
             classes.append("extras")
         if n_cuts:
             classes.append("segmented")
-        nt = bool(n_extra or n_cuts or len(inst["acs"]) > 1 or not inst["zones"] or not expect_ok)
+        nt = bool(n_extra or n_cuts or len(inst["acs"]) > 1 or not inst["zones"] or not expect_ok or case.get("refusals"))
         if stats is not None:
             stats.case(case, nt, classes=classes,
                        sample={"gen": gen, "acs": [(a["number"], a["name"]) for a in inst["acs"]],
@@ -197,7 +203,7 @@ def shards(tier: str):
 
 def floors(tier: str):
     f = {"expect-true": 200, "expect-false": 100, "zero-zones-at5": 5, "form:bitmap": 50, "form:old": 30, "form:range": 100,
-         "extras": 200, "segmented": 200}
+         "extras": 200, "segmented": 200, "refused-first": 100}
     for i in range(6):
         f[f"silent-step:{i}"] = 3
     return f
